@@ -21,21 +21,21 @@ open Mashu
 /-- mapping keys whose serialized form is a JSON string described by their own schema -/
 def KeyOK : Ty → Prop
   | .str => True
-  | .leaf k => k ≠ .timedelta ∧ k ≠ .pattern
+  | .leaf k => k ≠ .timedelta
   | _ => False
 
 /-- what the theorem assumes of the (uninterpreted) leaf printers: the printed form of a leaf of
     kind k is valid for the schema the generator emits for k (string; number for timedelta;
     'UTC' / 'UTC±hh:mm' for timezone) — sampled by the harness on every run -/
 structure WireLaws (O : Oracle) : Prop where
-  print_wire : ∀ k c b, k ≠ .pattern → O.call (.print k) (.leaf k c) = .ok b → Valid (leafSch k) b
-  print_str : ∀ k c b, k ≠ .timedelta → k ≠ .pattern → O.call (.print k) (.leaf k c) = .ok b → ∃ s, b = .str s
+  print_wire : ∀ k c b, O.call (.print k) (.leaf k c) = .ok b → Valid (leafSch k) b
+  print_str : ∀ k c b, k ≠ .timedelta → O.call (.print k) (.leaf k c) = .ok b → ∃ s, b = .str s
 
 mutual
 /-- the supported fragment: default serialization options, by alias where aliases exist -/
 def SOK : Ty → Prop
   | .any | .none | .bool | .int | .float | .str => True
-  | .leaf k => k ≠ .pattern
+  | .leaf _ => True
   | .enum _ _ => True
   | .lit vals => ∀ cw ∈ vals, cw.2 = cw.1
   | .opt t => SOK t
@@ -212,10 +212,10 @@ theorem key_valid (k : Ty) (cx : Cx) (fx : Fx) (x : V) (hp : cx.plain) (hk : Key
     simp only [Conf] at hc
     obtain ⟨c, rfl⟩ := hc
     obtain ⟨b, hb, _⟩ := hO.print_ok kk c
-    obtain ⟨s, hs⟩ := hW.print_str kk c b hk.1 hk.2 hb
+    obtain ⟨s, hs⟩ := hW.print_str kk c b hk hb
     refine ⟨b, s, by rw [pack]; simp [hp.1, Oracle.run, hb], hs, ?_⟩
     simp only [schemaOf]
-    exact hW.print_wire kk c b hk.2 hb
+    exact hW.print_wire kk c b hb
   | _ => simp [KeyOK] at hk
 
 mutual
@@ -242,7 +242,7 @@ theorem pack_valid : ∀ (S : Ty) (cx : Cx) (fx : Fx) (v : V), cx.plain → Frag
       obtain ⟨c, rfl⟩ := hc
       simp only [SOK] at hs
       obtain ⟨b, hb, _⟩ := hO.print_ok k c
-      exact ⟨b, by rw [pack]; simp [hp.1, Oracle.run, hb], by simp only [schemaOf]; exact hW.print_wire k c b hs hb⟩
+      exact ⟨b, by rw [pack]; simp [hp.1, Oracle.run, hb], by simp only [schemaOf]; exact hW.print_wire k c b hb⟩
   | .enum cls ms, cx, fx, v, hp, hf, _, hc => by
       simp only [Conf] at hc
       obtain ⟨m, rfl, hm⟩ := hc
